@@ -34,6 +34,8 @@ impl Vm {
                 self.run_gc();
                 return Ok(None);
             }
+            #[cfg(marwood_verif)]
+            self.verif_pre_instruction();
             match self.run_one() {
                 Ok(true) => break,
                 Ok(false) => continue,
@@ -53,6 +55,13 @@ impl Vm {
         self.stack.clear();
         self.run_gc();
         Ok(Some(cell))
+    }
+
+    /// Execute exactly one instruction (verification hook: public wrapper of `run_one`).
+    #[cfg(marwood_verif)]
+    pub fn verif_step(&mut self) -> Result<bool, Error> {
+        self.verif_count_instruction();
+        self.run_one()
     }
 
     /// Run One
@@ -480,8 +489,19 @@ impl Vm {
     ///
     /// 3. A sweep, freeing any vcells not marked as used in step #1.
     pub fn run_gc(&mut self) {
+        #[cfg(not(marwood_verif))]
         if (self.heap.used_size() as f64 / self.heap.capacity() as f64) < 0.75_f64 {
             return;
+        }
+        #[cfg(marwood_verif)]
+        if !self.verif.force_gc
+            && (self.heap.used_size() as f64 / self.heap.capacity() as f64) < 0.75_f64
+        {
+            return;
+        }
+        #[cfg(marwood_verif)]
+        {
+            self.verif.collections += 1;
         }
 
         self.globenv
